@@ -34,7 +34,9 @@ POOLS = {
     "uint8": ("uint8", [0, 255, 7]),
     "float32": ("float32", [0.1, 16777217.0, None]),
 }
-INDEXES = ["default", "named", "string", "datetime", "multi"]
+INDEXES = ["default", "named", "string", "datetime", "multi", "pool_index", "pool_level", "pool_level_sliced"]
+# pool_*: the enumerated column itself is used as the index / as the first level of a MultiIndex (so nulls and extremes also occur in
+# index positions); *_sliced: the frame is cut out of a longer MultiIndexed frame, so unused level values remain in MultiIndex.levels
 
 
 def _series(pool, values):
@@ -72,9 +74,9 @@ def _equal(a, b):
 
     try:
         if isinstance(a, pd.DataFrame):
-            pd.testing.assert_frame_equal(a, b, check_exact=True, check_dtype=False, check_categorical=False)
+            pd.testing.assert_frame_equal(a, b, check_exact=True, check_dtype=False, check_categorical=False, check_index_type=False)
         else:
-            pd.testing.assert_series_equal(a, b, check_exact=True, check_dtype=False, check_categorical=False)
+            pd.testing.assert_series_equal(a, b, check_exact=True, check_dtype=False, check_categorical=False, check_index_type=False)
         return True
     except AssertionError:
         return False
@@ -145,6 +147,20 @@ def _check_obj(obj, col_of_interest, pool, tag, add):
                     add("bounds_tight", f"{pool}:max_inexact", f"data max {int(mx)} vs inferred {b['max']!r}")
         except Exception as e:  # noqa
             add("bounds_tight", f"{pool}:compare_raises:{type(e).__name__}", f"{e!r}")
+    # tight bounds of the index component when the pool column sits in the index
+    if isinstance(obj, pd.DataFrame) and tag.split(":")[1].startswith("pool_") and schema.index is not None and pool not in ("bool",):
+        comp_i = schema.index.indexes[0] if hasattr(schema.index, "indexes") else schema.index
+        vals_i = pd.Series(obj.index.get_level_values(0)).dropna()
+        bi = _bounds(comp_i)
+        if bi and len(vals_i):
+            try:
+                mn, mx = vals_i.min(), vals_i.max()
+                if "min" in bi and not (mn == bi["min"]):
+                    add("bounds_tight", f"{pool}:index_min", f"{tag}: index min {mn!r} vs inferred {bi['min']!r}")
+                if "max" in bi and not (mx == bi["max"]):
+                    add("bounds_tight", f"{pool}:index_max", f"{tag}: index max {mx!r} vs inferred {bi['max']!r}")
+            except Exception as e:  # noqa
+                add("bounds_tight", f"{pool}:index_compare_raises:{type(e).__name__}", f"{e!r}")
     # serialisation (DataFrameSchema only)
     if isinstance(obj, pd.DataFrame):
         for fmt in ("yaml", "json", "script"):
@@ -188,6 +204,23 @@ def _explore(pool, maxlen, index_kinds):
             shape = "empty" if L == 0 else ("allnull" if allnull else ("hasnull" if ser.isna().any() else "dense"))
             for ik in index_kinds:
                 if ik != "default" and (L == 0 or (L < 2 and ik == "multi")):
+                    continue
+                if ik.startswith("pool_"):
+                    if pool in ("category", "mixed"):
+                        continue
+                    n += 1
+                    try:
+                        if ik == "pool_index":
+                            df = pd.DataFrame({"other": list(range(L))}, index=pd.Index(ser, name="ix"))
+                        else:
+                            extra = _series(pool, values + [vals[-1] if vals[-1] is not None else vals[0]]) if ik == "pool_level_sliced" else ser
+                            m = len(extra)
+                            mi = pd.MultiIndex.from_arrays([extra.values if not str(extra.dtype).startswith("datetime64[ns,") else extra, list(range(m))],
+                                                           names=["k1", "k2"])
+                            df = pd.DataFrame({"other": list(range(m))}, index=mi).iloc[:L]
+                    except Exception:  # noqa
+                        continue
+                    _check_obj(df, "other", pool, f"frame:{ik}:{shape}", add)
                     continue
                 n += 1
                 ser2 = ser.copy()
